@@ -18,6 +18,8 @@ CONSTANTS Flags,        \* deviations built into the machine ({} = the statement
                         \*         applied by a and b with decorator syntax (also below @event_trigger), explicitly, or as a factory
                         \* "task": context-bound functions (current context, task.wait_until expression) in created tasks whose
                         \*         code belongs to another file than their creator's, creator alive elsewhere or finished
+                        \* "cancel": evaluators cancelled (task.unique, also kill_me) while suspended inside a function of another
+                        \*         file, with clean-up code (try / finally, nested, in caller and callee) that reads and writes globals
 
 VARIABLES P, S
 vars == <<P, S>>
@@ -44,6 +46,8 @@ TaskV(f, via) == [op |-> "task", f |-> f, via |-> via]
 Task(f) == TaskV(f, "")
 Sleep(t) == [op |-> "sleep", t |-> t]
 DCall(f, via, cb) == [op |-> "dcall", f |-> f, via |-> via, cb |-> cb]
+Try(body, fin) == [op |-> "try", body |-> body, fin |-> fin]
+Unique(n, km) == [op |-> "unique", n |-> n, killme |-> km]
 Import(form, target, alt, as, names) == [op |-> "import", form |-> form, target |-> target, alt |-> alt, as |-> as, names |-> names]
 ImportM(form) == Import(form, "modules.m", "modules.m", "m", <<"f", "g", "x">>)
 
@@ -129,6 +133,33 @@ TBody(who, form, own, aft, ev, eps) ==
      Def("jo", << Sleep(32 * eps), ListCtx(who \o ".jo.ctx"), WExpr("x", "m0", 2048, who \o ".jo.wx") >>, ""),
      Def("t", << Sleep(eps), IF own THEN Task("jo") ELSE TaskV("j", via) >> \o aft, ev) >>
 
+\* cancellation grammar.  m: slow (suspends inside its own try / finally), hold (takes the task name "u" - in m's name space - and
+\* suspends), km (task.unique("u", kill_me=True) in m's name space), boom (raises).  a: trigger function t1 (the victim: takes "u" in
+\* a's name space or lets m take it in m's, then runs a function of m inside try / finally - plain, nested, through a try-call,
+\* or suspends itself) and trigger function t2 (takes the same names later); b: trigger function t3 doing the same from another file
+\* (its own "u" is another name; m's is the same).  All interleavings of the three.
+MCancel == << Set("WHO", "m"), Set("x", "m0"),
+              Def("slow", << Try(<< Sleep(64) >>, << Read("x", "slow.fx"), GetCtx("slow.fctx") >>), Read("x", "slow.x") >>, ""),
+              Def("hold", << Unique("u", FALSE), Sleep(64), Read("x", "hold.x") >>, ""),
+              Def("km", << Unique("u", TRUE), Sleep(32), Read("x", "km.x") >>, ""),
+              Def("boom", << Raise >>, "") >>
+Fin(who) == << Read("x", who \o ".fx"), GetCtx(who \o ".fctx"), Set("x", who \o "f") >>
+Victims(who, via) ==
+  { << Unique("u", FALSE), Try(<< Call("slow", via) >>, Fin(who)), Read("x", who \o ".after") >>,
+    << Try(<< Call("hold", via) >>, Fin(who)) >>,
+    << Unique("u", FALSE), Try(<< Try(<< Call("slow", via) >>, << Read("WHO", who \o ".in") >>), Read("x", who \o ".mid") >>, Fin(who)) >>,
+    << Unique("u", FALSE), Try(<< Sleep(64) >>, Fin(who)) >>,
+    << Unique("u", FALSE), Try(<< TryCall("slow", via, who \o ".try") >>, Fin(who)) >>,
+    << Try(<< Call("km", via) >>, Fin(who)) >>,
+    << Try(<< Call("boom", via) >>, Fin(who)) >> }
+Killers(who, via) == { <<>>, << Unique("u", FALSE) >>, << Call("hold", via) >>, << Try(<< Call("km", via) >>, Fin(who)) >> }
+CTrig(name, who, body, ev, eps) == Def(name, << Sleep(eps) >> \o body \o << Read("x", who \o ".x"), GetCtx(who \o ".ctx") >>, ev)
+ImportC(form) == Import(form, "modules.m", "modules.m", "m", <<"slow", "hold", "km", "boom">>)
+OptTrig(name, who, body, ev, eps) == IF body = <<>> THEN <<>> ELSE << CTrig(name, who, body, ev, eps) >>      \* no body: no such trigger function
+ACancel(form, vb, kb) == << Set("WHO", "a"), Set("x", "a0"), ImportC(form), CTrig("t1", "a1", vb, "e1", 1) >> \o OptTrig("t2", "a2", kb, "e2", 2)
+BCancel(form, kb) == << Set("WHO", "b"), Set("x", "b0"), ImportC(form) >> \o OptTrig("t3", "b3", kb, "e3", 3)
+
+Vias(f) == LET via == IF f = "mod" THEN "m" ELSE "" IN { <<f, v, ka, kb>> : v \in Victims("a1", via), ka \in Killers("a2", via), kb \in Killers("b3", "m") }
 File(body, auto) == [body |-> body, auto |-> auto]
 Progs ==
   IF Mode = "deco"
@@ -137,6 +168,11 @@ Progs ==
           order |-> <<"file.a", "file.b">>, events |-> <<"e1">>]
          : fa \in Forms, <<how, db>> \in { hd \in Hows \X DBodies : ~(hd[1] = "factory" /\ hd[2] = << Ret("_fn") >>) },     \* d() returns no function
            fb \in FBs, td \in BOOLEAN }
+  ELSE IF Mode = "cancel"
+  THEN { [files |-> ("file.a" :> File(ACancel(q[1], q[2], q[3]), TRUE)) @@ ("file.b" :> File(BCancel("mod", q[4]), TRUE)) @@
+                    ("modules.m" :> File(MCancel, FALSE)),
+          order |-> <<"file.a", "file.b">>, events |-> <<"e1", "e2", "e3">>]
+         : q \in { r \in UNION { Vias(f) : f \in Forms } : OpsA > 1 \/ (r[3] = <<>>) # (r[4] = <<>>) } }   \* OpsA = 1: one more trigger function, in a or in b
   ELSE IF Mode = "task"
   THEN { [files |-> ("file.a" :> File(TBody("a", fa, oa, aa, "e1", 1), TRUE)) @@ ("file.b" :> File(TBody("b", fb, ob, <<>>, "e2", 2), TRUE)) @@
                     ("modules.m" :> File(MTask, FALSE)),
@@ -168,6 +204,7 @@ InvWrites   == WritesOnlyToOwnGlobals(S)
 InvPointer  == PointerRestoredOnEveryExit(S)
 InvInstance == OneInstancePerModule(S) /\ OneContextPerFile(P, S)
 InvCtxFuncs == ContextFunctionsFollowTheCode(S)
+InvNames    == TaskNamesPerContext(S)
 InvOk       == S.ok
 \* witnesses (expected to be violated): calls across contexts happen, exceptions cross contexts, modules are shared
 W_NoCrossCall  == ~(Len(S.stack) >= 2 /\ Top(S).kind = "call" /\ Top(S).own # S.stack[Len(S.stack) - 1].own)
@@ -195,15 +232,30 @@ W_NoTaskCrossing    == ~(S.stack # <<>> /\ S.ev.by # 0 /\ S.stack[1].saved # S.s
 W_NoCreatorElsewhere == ~(S.stack # <<>> /\ S.ev.by # 0 /\ Top(S).pc <= Len(Top(S).code) /\ Cur(S).op \in {"listctx", "wexpr"}
                            /\ \E i \in 1..Len(S.sleepers) : S.sleepers[i].ev.id = S.ev.by /\ S.sleepers[i].ptr # S.ptr)
 W_NoTimeout         == ~(\E i \in 1..Len(S.log) : S.log[i].v = Data("timeout"))
+\* clean-up code of a.py running after a cancellation that hit inside a function of m; an evaluator cancelling itself (kill_me); a
+\* cancellation passing a try-call (except Exception); a task name taken while the same name of ANOTHER context is held by a live
+\* evaluator (no cancellation); the inner and the outer clean-up code of one activation both running for one cancellation; clean-up
+\* code running for an ordinary exception of a callee of another file
+FinRunning(exc) == S.stack # <<>> /\ Top(S).hs # <<>> /\ Top(S).hs[Len(Top(S).hs)].st = "fin" /\ Top(S).hs[Len(Top(S).hs)].pend = exc
+W_NoCancelAcross   == ~(FinRunning("cancel") /\ Top(S).own = "file.a" /\ [exc |-> "cancel", from |-> "modules.m", to |-> "file.a", catch |-> FALSE, fin |-> TRUE] \in S.cx)
+W_NoSelfCancel     == ~(S.cancels # <<>> /\ Head(S.cancels).self /\ S.sleepers[Len(S.sleepers)].ptr = "modules.m")
+W_NoCancelPastTry  == ~(FinRunning("cancel") /\ [exc |-> "cancel", from |-> "modules.m", to |-> "file.a", catch |-> TRUE, fin |-> FALSE] \in S.cx)
+W_NoForeignName    == ~(S.stack # <<>> /\ Top(S).pc <= Len(Top(S).code) /\ Cur(S).op = "unique" /\ ~Has(S.uniq, [c |-> S.ptr, n |-> Cur(S).n])
+                          /\ \E k \in DOMAIN S.uniq : k.n = Cur(S).n /\ k.c # S.ptr /\ S.uniq[k].id # S.ev.id)
+W_NoNestedFin      == ~(FinRunning("cancel") /\ Len(Top(S).hs) >= 2)
+W_NoErrorFin       == ~(FinRunning("error") /\ Top(S).own = "file.a" /\ [exc |-> "error", from |-> "modules.m", to |-> "file.a", catch |-> FALSE, fin |-> TRUE] \in S.cx)
 \* all witnesses in one run (workers = 1): registers set by the invariant WitTrack, printed by the post-condition
 WitNames == << "W_NoCrossCall", "W_NoCaught", "W_NoSharedSeen", "W_NoTask", "W_NoInterleave", "W_NoReentry", "W_NoRecursion",
-              "W_NoWrapperCall", "W_NoWrappedBack", "W_NoDecoTrigger", "W_NoFactory", "W_NoTaskCrossing", "W_NoCreatorElsewhere", "W_NoTimeout" >>
+              "W_NoWrapperCall", "W_NoWrappedBack", "W_NoDecoTrigger", "W_NoFactory", "W_NoTaskCrossing", "W_NoCreatorElsewhere", "W_NoTimeout",
+              "W_NoCancelAcross", "W_NoSelfCancel", "W_NoCancelPastTry", "W_NoForeignName", "W_NoNestedFin", "W_NoErrorFin" >>
 WitVal(k) == CASE k = 1 -> ~W_NoCrossCall [] k = 2 -> ~W_NoCaught [] k = 3 -> ~W_NoSharedSeen [] k = 4 -> ~W_NoTask
                [] k = 5 -> ~W_NoInterleave [] k = 6 -> ~W_NoReentry [] k = 7 -> ~W_NoRecursion
                [] k = 8 -> ~W_NoWrapperCall [] k = 9 -> ~W_NoWrappedBack [] k = 10 -> ~W_NoDecoTrigger [] k = 11 -> ~W_NoFactory
                [] k = 12 -> ~W_NoTaskCrossing [] k = 13 -> ~W_NoCreatorElsewhere [] k = 14 -> ~W_NoTimeout
+               [] k = 15 -> ~W_NoCancelAcross [] k = 16 -> ~W_NoSelfCancel [] k = 17 -> ~W_NoCancelPastTry [] k = 18 -> ~W_NoForeignName
+               [] k = 19 -> ~W_NoNestedFin [] k = 20 -> ~W_NoErrorFin
 ASSUME \A k \in 1..Len(WitNames) : TLCSet(k, FALSE)
-WitOf == IF Mode = "plain" THEN 1..4 ELSE IF Mode = "conc" THEN 5..7 ELSE IF Mode = "deco" THEN 8..11 ELSE IF Mode = "task" THEN 12..14 ELSE {}
+WitOf == IF Mode = "plain" THEN 1..4 ELSE IF Mode = "conc" THEN 5..7 ELSE IF Mode = "deco" THEN 8..11 ELSE IF Mode = "task" THEN 12..14 ELSE IF Mode = "cancel" THEN 15..20 ELSE {}
 WitTrack  == \A k \in WitOf : (~TLCGet(k) /\ WitVal(k)) => TLCSet(k, TRUE)       \* only the witnesses of the grammar in use, until seen
 WitReport == PrintT("INFO " \o ToJson([seen |-> { WitNames[k] : k \in { j \in 1..Len(WitNames) : TLCGet(j) } }]))
 =============================================================================
